@@ -67,7 +67,17 @@ fn parse_cfg_if_inner<'a>(
             && parser.token.kind != TokenKind::Eof
         {
             let item = match parser.parse_item(ForceCollect::No) {
-                Ok(Some(item_ptr)) => item_ptr.into_inner(),
+                Ok(Some(item_ptr)) => {
+                    // The parser recovered from a syntax error: the count it leaves behind in the
+                    // session would make the formatting that follows give up on its next macro.
+                    if parser.psess.dcx().has_errors().is_some() {
+                        parser.psess.dcx().reset_err_count();
+                        return Err(
+                            "Expected item inside cfg_if block, but failed to parse it as an item",
+                        );
+                    }
+                    item_ptr.into_inner()
+                }
                 // Nothing was consumed: the token cannot start an item, looping would never end.
                 Ok(None) => {
                     return Err("Expected item inside cfg_if block, but found something else");
